@@ -76,6 +76,7 @@ func c09GroupNIST(t *testing.T, unit string, g group.Group, c *wcurve.Curve) {
 				v := c09ref.SEC1Verdict(c, in)
 				return verifmc.DecOracle{Member: v.Member, Reason: v.Reason, Point: v.Point}
 			},
+			AcceptOnly: func(in []byte) bool { return g.NewElement().UnmarshalBinary(in) == nil },
 			Lib: func(in []byte) verifmc.DecResult {
 				keep := c09ref.Clone(in)
 				e := g.NewElement()
@@ -126,6 +127,7 @@ func TestVerifC09_group_ristretto255(t *testing.T) {
 			v := c09ref.RistrettoVerdict(in)
 			return verifmc.DecOracle{Member: v.Member, Reason: v.Reason, Point: v.Point}
 		},
+		AcceptOnly: func(in []byte) bool { return g.NewElement().UnmarshalBinary(in) == nil },
 		Lib: func(in []byte) verifmc.DecResult {
 			keep := c09ref.Clone(in)
 			e := g.NewElement()
